@@ -322,6 +322,7 @@ def execute(cases, workers=16):
         again = [i for i, r in enumerate(results) if r.get('timeout') and 'harness_error' not in r]
         if not again:
             break
+        again = again[:8]       # the race is rare: when many scenarios time out it is not the race, and a sample settles that
         redo = pipelib.run_cases([cases[i] for i in again], workers=min(workers, 4))
         for i, r in zip(again, redo):
             r.setdefault('notes', []).append('re-run after a timeout (attempt %d)' % (attempt + 2))
